@@ -309,6 +309,25 @@ def _run(case, rec):
             rec.fail("load:roundtrip", {"scanned": v1, "loaded": v2})
             return
         compare(rec, spec, root, list(loaded.children), sort, "load")
+        if rec.failed:
+            return
+        # trees DERIVED from the scanned one are FileSystemTrees as well: the loaded tree and a copy of the scanned
+        # tree are saved and loaded again (second generation)
+        for which, derived in (("loaded", loaded), ("copy", tree.copy())):
+            rec.evals += 1
+            t2 = os.path.join(tmp, f"gen2-{which}.nutree")
+            try:
+                if type(derived) is not FileSystemTree:
+                    rec.fail(f"second-generation:{which}:class", repr(type(derived)))
+                    return
+                derived.save(t2)
+                again = FileSystemTree.load(t2)
+            except Exception as e:  # noqa: BLE001
+                rec.fail(f"second-generation:{which}:raises:{type(e).__name__}", repr(e)[:200])
+                return
+            if view(again) != v1:
+                rec.fail(f"second-generation:{which}:roundtrip", {"scanned": v1, "again": view(again)})
+                return
 
 
 @st.composite
